@@ -4,7 +4,8 @@ FILES = ['src/reader/file_reader.c', 'src/reader/mmap_reader.c', 'src/reader/pag
          'src/thrift/thrift_decode.c', 'src/thrift/parquet_types.c', 'src/core/arena.c', 'src/core/error.c']
 BUDGET = {'quick': 1800, 'thorough': 3600}
 H = 'harness/e2/c04_file.c'
-STUBS = ['stdio and open/fstat/mmap over the in-memory model file system', 'cpuid: no SIMD features (scalar dispatch)', 'snprintf/vsnprintf: writes an empty NUL-terminated string',
+STUBS = ['zlib / libzstd: contract stubs (arbitrary status, arbitrary output within the declared capacity)', 'summary: carquet_crc32 = uninterpreted function of the page bytes',
+         'stdio and open/fstat/mmap over the in-memory model file system', 'cpuid: no SIMD features (scalar dispatch)', 'snprintf/vsnprintf: writes an empty NUL-terminated string',
          'OpenMP pragmas: sequential schedule of the _OPENMP-enabled code', 'malloc of more than 1 GiB returns NULL']
 MODES = {0: 'buffer', 1: 'stdio', 2: 'mmap'}
 REG = {0: 'footer', 1: 'data-region'}
@@ -13,7 +14,7 @@ REG = {0: 'footer', 1: 'data-region'}
 def win(skel, region, w0, nwin, stride, wlen, om, timeout=1700):
     return E2('window/skel%d/%s/%s/off%d+%dx%d/len%d' % (skel, REG[region], MODES[om], w0, nwin, stride, wlen), H,
               defines=['-DSKEL=%d' % skel, '-DREGION=%d' % region, '-DW0=%d' % w0, '-DNWIN=%d' % nwin, '-DSTRIDE=%d' % stride, '-DWLEN=%d' % wlen, '-DOPENMODE=%d' % om],
-              all_lib=True, timeout=timeout, stubs=STUBS, max_paths=400000, max_steps=1500000, fork_max=16, max_depth=64, validate=3,
+              all_lib=True, timeout=timeout, stubs=STUBS, summaries=['crc32'], max_paths=400000, max_steps=1500000, fork_max=16, max_depth=64, validate=3,
               bounds='valid skeleton file %d (real writer); %d window positions (offset %d.., stride %d) in the %s, %d symbolic byte(s) each; open via %s; '
                      'get_column with symbolic row-group/column index in -1..2 / -1..3, read_batch, skip, statistics, batch reader, close; '
                      'step bound 1.5M IR instructions per path, call depth 64' % (skel, nwin, w0, stride, REG[region], wlen, MODES[om]))
